@@ -551,7 +551,7 @@ def judge_dm(c, r, m):
         if not raised and i_journal != sorted(m_journal):
             corr = False
     if not c['param']:
-        if not (i_out[0] == 1 and i_out[1] == ASSERTION):
+        if i_out[0] != 3 and not (i_out[0] == 1 and i_out[1] == ASSERTION):      # 3: no class, the class body raised
             what.append(f'unparametrised WithDecoratedMethods must raise AssertionError, outcome {i_out[:4]} ({r.get("exc_name")})')
         return corr, not what, '; '.join(what), claimed, no_dd, m_ok
     if claimed:
@@ -601,6 +601,22 @@ def shrink_candidates(c):
                       outer=[[ren[x[0]], x[1], x[2]] for x in d.get('outer', [])])
             out.append({'stream': 'dm', 'members': [c['members'][i] for i in used], 'inst': 10, 'param': True,
                         'classes': [{'id': 10, 'name': cl.get('name') or 'K', 'bases': [['wdm', 'enum']], 'defs': [d2]}]})
+    # the body without its decorated methods of dunder name
+    cut = False
+    classes = []
+    for cl in c['classes']:
+        cname = cl.get('name') or 'K'
+        keep = []
+        for d in cl.get('defs', []):
+            if d['kind'] in KIND_OF and (d.get('inner') or d.get('outer')) and mangle(cname, d['name']).startswith('__'):
+                cut = True
+            else:
+                keep.append(d)
+        names = {d['name'] for d in keep}
+        keep = [d for d in keep if d['kind'] != 'alias' or d['target'] in names]
+        classes.append(dict(cl, defs=keep))
+    if cut:
+        out.append(dict(c, classes=classes))
     return out
 
 
@@ -695,32 +711,40 @@ def run(tier, seed, replay=None):
         elif not corr:
             disagreements.append({'case': c, 'impl': {k: r[k] for k in ('out', 'journal', 'stage', 'exc_name') if k in r}, 'model': m})
 
-    # shrink failing class bodies: single definitions cut out of them, re-run; the smallest failing case is reported
+    # shrink failing class bodies: every single decorated definition cut out of them, and the body without its decorated
+    # dunder-named methods, are re-run in one batch; what still fails is reported (smallest first), else the case itself
     failing_dm.sort(key=lambda t: dm_size(t[0]))
+    cands, per_case = {}, []
+    for c, r, m, what in failing_dm[:80]:
+        keys = []
+        for cc in (shrink_candidates(c) if c['param'] else []):
+            k = json.dumps(cc, sort_keys=True)
+            cands.setdefault(k, cc)
+            keys.append(k)
+        per_case.append(keys)
+    fails = {}
+    if cands:
+        klist = list(cands)
+        ci, cm = evaluate(ck, [cands[k] for k in klist])
+        for k, cr, cmm in zip(klist, ci, cm):
+            if cr and cmm and 'out' in cr:
+                try:
+                    j = judge_dm(cands[k], cr, cmm)
+                except (ValueError, KeyError, IndexError):
+                    continue
+                if not j[1]:
+                    fails[k] = (cr, cmm, j[2])
     reported = set()
-    for c, r, m, what in failing_dm[:12]:
-        cands = shrink_candidates(c) if c['param'] and replay is None else []
-        small = None
-        if cands:
-            ci, cm = evaluate(ck, cands)
-            for cc, cr, cmm in zip(cands, ci, cm):
-                if cr and cmm and 'out' in cr:
-                    try:
-                        j = judge_dm(cc, cr, cmm)
-                    except (ValueError, KeyError, IndexError):
-                        continue
-                    if not j[1]:
-                        small = (cc, cr, cmm, j[2])
-                        break
-        cc, cr, cmm, w = small or (c, r, m, what)
-        k = json.dumps(cc, sort_keys=True)
-        if k in reported:
+    for (c, r, m, what), keys in zip(failing_dm, per_case + [[]] * len(failing_dm)):
+        hit = [k for k in keys if k in fails]
+        if not hit:
+            ck.violation(what, c, stream='mixins/dm', extra={'impl': r, 'model': m}, matcher=k9_matcher)
             continue
-        reported.add(k)
-        ck.violation(w, cc, stream='mixins/dm', extra={'impl': cr, 'model': cmm, 'shrunk_from': c if small else None}, matcher=k9_matcher)
-    for c, r, m, what in failing_dm[12:]:
-        # too many to shrink one by one: those the known finding explains syntactically are counted, the rest reported as they are
-        ck.violation(what, c, stream='mixins/dm', extra={'impl': r, 'model': m}, matcher=k9_matcher)
+        for k in hit:
+            if k not in reported:
+                reported.add(k)
+                cr, cmm, w = fails[k]
+                ck.violation(w, cands[k], stream='mixins/dm', extra={'impl': cr, 'model': cmm, 'shrunk_from': c}, matcher=k9_matcher)
     ck.violations.sort(key=lambda v: (len(json.dumps(v['case']))))
 
     ck.oblige('correspondence:mixins', 'correspondence', not disagreements,
